@@ -4,6 +4,7 @@ package world
 
 import (
 	"math/big"
+	"sort"
 
 	"github.com/idena-network/idena-go/blockchain/attachments"
 	"github.com/idena-network/idena-go/blockchain/fee"
@@ -84,8 +85,8 @@ func GenesisG2() replica.Opts {
 			A(P):  alloc(state.Verified, 1000, 50),
 			A(D1): alloc(state.Verified, 1000, 30),
 			A(D2): alloc(state.Newbie, 1000, 1),
-			A(X1): alloc(state.Undefined, 500, 0),
-			A(X2): alloc(state.Undefined, 500, 0),
+			A(X1): alloc(state.Undefined, 20000, 0),
+			A(X2): alloc(state.Undefined, 20000, 0),
 			A(S1): alloc(state.Suspended, 100, 20),
 			A(ZM): alloc(state.Zombie, 100, 20),
 			A(K):  alloc(state.Killed, 100, 0),
@@ -219,3 +220,18 @@ func TerminatePayload(args ...[]byte) []byte {
 func Big(n int64) *big.Int { return big.NewInt(n) }
 
 func embeddedTimeLock() common.Hash { return embedded.TimeLockContract }
+
+// Contract returns the i-th contract address of the committed state (sorted), or nil.
+func (b *B) Contract(i int) *common.Address {
+	var cs []common.Address
+	b.R.App.State.IterateOverAccounts(func(addr common.Address, acc state.Account) {
+		if acc.Contract != nil {
+			cs = append(cs, addr)
+		}
+	})
+	sort.Slice(cs, func(x, y int) bool { return string(cs[x][:]) < string(cs[y][:]) })
+	if i >= len(cs) {
+		return nil
+	}
+	return &cs[i]
+}
